@@ -10,11 +10,12 @@ import (
 
 // safely runs f, turning a panic of the code under test into a violation.
 func safely(c *Ctx, what string, f func()) (v *Violation) {
+	c.opSteps = 0
 	defer func() {
 		if r := recover(); r != nil {
 			if _, ok := r.(stepLimit); ok {
-				v = &Violation{Clause: c.Prop + ".nontermination/" + what, Msg: fmt.Sprintf("%s did not terminate within the step bound (%d yields)", what, c.Steps)}
-				c.Steps = 0
+				v = &Violation{Clause: c.Prop + ".nontermination/" + what, Msg: fmt.Sprintf("%s did not terminate within the step bound (%d yields in this call)", what, c.opSteps)}
+				c.opSteps = 0
 				return
 			}
 			v = &Violation{Clause: c.Prop + ".panic/" + what, Msg: fmt.Sprintf("%s panicked: %v", what, r)}
